@@ -87,6 +87,71 @@ struct screen_stepper : stepper
     std::string result() override { return res.empty() ? "-" : res; }
 };
 
+// an `I` line: each run is a fresh terminal; one step = one delivery.  ALL runs of the line are alive at once
+// (their deliveries are taken in turn), so even a single `I` object interleaves several decoders.
+struct input_stepper : stepper
+{
+    struct run_state
+    {
+        std::unique_ptr<test_channel> ch;
+        std::unique_ptr<terminal> t;
+        std::unique_ptr<input_client> client;
+        std::vector<std::string> chunks;
+        std::size_t i = 0;
+        std::string res;
+        bool empty = false;
+    };
+    std::vector<run_state> runs;
+    std::size_t next = 0;
+    explicit input_stepper(std::string const &rest)
+    {
+        for (auto const &run : split(rest, '/')) {
+            run_state rs;
+            reader r(run);
+            std::string w = r.word();
+            if (w.empty()) { rs.empty = true; runs.push_back(std::move(rs)); continue; }
+            rs.ch = std::make_unique<test_channel>();
+            rs.t = std::make_unique<terminal>(*rs.ch);
+            rs.client = std::make_unique<input_client>();
+            rs.client->start(*rs.t);
+            rs.chunks = split(w, ',');
+            runs.push_back(std::move(rs));
+        }
+    }
+    bool done() const override
+    {
+        for (auto const &rs : runs) if (!rs.empty && rs.i < rs.chunks.size()) return false;
+        return true;
+    }
+    void step() override
+    {
+        for (std::size_t k = 0; k < runs.size(); ++k) {
+            auto &rs = runs[(next + k) % runs.size()];
+            if (rs.empty || rs.i >= rs.chunks.size()) continue;
+            byte_storage data = unhex(rs.chunks[rs.i]);
+            rs.client->calls = 0;
+            rs.client->toks.clear();
+            rs.ch->deliver(bytes{data.data(), data.size()});
+            if (rs.i > 0) rs.res += " ; ";
+            rs.res += std::to_string(rs.client->calls) + ":" + rs.client->toks;
+            ++rs.i;
+            next = (next + k + 1) % runs.size();
+            return;
+        }
+    }
+    std::string result() override
+    {
+        std::string ans;
+        bool first = true;
+        for (auto const &rs : runs) {
+            if (!first) ans += " / ";
+            first = false;
+            ans += rs.empty ? std::string(".") : rs.res;
+        }
+        return ans;
+    }
+};
+
 struct single_stepper : stepper
 {
     std::string line, ans;
@@ -123,6 +188,7 @@ int main()
         if (line.empty()) continue;
         if (line[0] == 'T') objs.push_back(std::make_unique<terminal_stepper>(line.substr(1)));
         else if (line[0] == 'S') objs.push_back(std::make_unique<screen_stepper>(line.substr(1)));
+        else if (line[0] == 'I') objs.push_back(std::make_unique<input_stepper>(line.substr(1)));
         else objs.push_back(std::make_unique<single_stepper>(line));
     }
     if (mode == 2) {
